@@ -16,6 +16,7 @@ import (
 	"bytes"
 	"fmt"
 	"os"
+	"runtime"
 	"sync"
 	"syscall"
 	"time"
@@ -89,10 +90,40 @@ const noHashID = 999998
 
 func quiet() { log.SetLogLevel("crit") }
 
+// stopMiner waits for the consensus module's answer: an unacknowledged stop can get lost on a
+// loaded machine, and a solo miner that is still running turns the transactions of
+// disconnected blocks into blocks of its own.
 func stopMiner(m *testnode.Chain33Mock) {
 	cl := m.GetClient()
-	msg := cl.NewMessage("consensus", types.EventMinerStop, nil)
-	_ = cl.Send(msg, false)
+	for try := 0; try < 5; try++ {
+		msg := cl.NewMessage("consensus", types.EventMinerStop, nil)
+		if err := cl.Send(msg, true); err != nil {
+			time.Sleep(20 * time.Millisecond)
+			continue
+		}
+		_, err := cl.WaitTimeout(msg, 10*time.Second)
+		if err == nil || err == types.ErrMinerNotStared {
+			return
+		}
+	}
+	panic("miner not stopped")
+}
+
+// waitWalletRescan: importing the test keys starts one wallet goroutine per key
+// (rescanReqTxDetailByAddr) that lists the address's transactions and then fetches their
+// details; if a block holding one of them is disconnected in between, the wallet dereferences
+// a nil transaction (wallet_proc.go GetTxDetailByHashs -> ActionName) and the process dies.
+// That race is not this property's business: the run starts when those goroutines are gone.
+func waitWalletRescan() {
+	buf := make([]byte, 8<<20)
+	deadline := time.Now().Add(20 * time.Second)
+	for time.Now().Before(deadline) {
+		n := runtime.Stack(buf, true)
+		if !bytes.Contains(buf[:n], []byte("rescanReqTxDetailByAddr")) {
+			return
+		}
+		time.Sleep(5 * time.Millisecond)
+	}
 }
 
 var nodeMu sync.Mutex // testnode set-up is not re-entrant (wallet labels)
@@ -110,6 +141,7 @@ func startNode(cfg *types.Chain33Config) *testnode.Chain33Mock {
 		}
 		time.Sleep(2 * time.Millisecond)
 	}
+	waitWalletRescan()
 	return m
 }
 
@@ -553,7 +585,7 @@ func main() {
 
 	r := hlib.NewRng(opts.Seed)
 	budget := 55 * time.Second
-	nTrees, nOrders, nFlip, nNoRec, nPara, exhaustOff := 4, 26, 14, 6, 40, 4
+	nTrees, nOrders, nFlip, nNoRec, nPara, exhaustOff := 6, 36, 24, 8, 64, 4
 	if opts.Thorough() {
 		budget = 40 * time.Minute
 		nTrees, nOrders, nFlip, nNoRec, nPara, exhaustOff = 40, 300, 300, 60, 1500, 6
